@@ -979,7 +979,9 @@ func TestVerif_C04_DecompressTotal(t *testing.T) {
 		r.Count(k, v)
 	}
 	r.Count("max_returning_call_us", atomic.LoadInt64(&maxDurNs)/1000)
-	if time.Duration(atomic.LoadInt64(&maxDurNs)) > c04HangAfter/10 {
+	// The guard matters only when a hang was actually reported in this run: a
+	// slow machine cannot turn returning calls into a wrong verdict.
+	if outcomes["G1:hang"]+outcomes["G2:hang"] > 0 && time.Duration(atomic.LoadInt64(&maxDurNs)) > c04HangAfter/10 {
 		r.Inconclusive(fmt.Sprintf("slowest returning call took %v: the machine is too slow for the 20 s rule to separate a hang from a slow call", time.Duration(maxDurNs)))
 	}
 }
